@@ -216,6 +216,20 @@ theorem reopen_kind (f : Frag) : f.reopen.cache.kind = f.cache.kind := by
   · simp only [invalidate_kind, foldl_bulkAdd_kind]
     rfl
 
+theorem openCacheWith_kind (f : Frag) (ids : List Nat) : (f.openCacheWith ids).cache.kind = f.cache.kind := by
+  unfold Frag.openCacheWith
+  split
+  · rfl
+  · simp only [invalidate_kind, foldl_bulkAdd_kind]
+    rfl
+
+theorem transfer_kind (dst src : Frag) : (dst.transfer src).cache.kind = dst.cache.kind := by
+  unfold Frag.transfer
+  simp only
+  split
+  · rfl
+  · exact openCacheWith_kind _ _
+
 theorem idPairs_kind (ids : List Nat) (f : Frag) : (f.idPairs ids).2.kind = f.cache.kind := by
   induction ids generalizing f with
   | nil => rfl
